@@ -2,6 +2,7 @@ import SteelVerif.C06.Props
 import SteelVerif.C06.Rollback
 open SteelVerif.C06
 #print axioms scan_complete
+#print axioms gen_recycler_fixpoint
 #print axioms get_add
 #print axioms shadowed_add
 #print axioms add_fresh
